@@ -32,7 +32,7 @@ func init() {
 		},
 		Quick:    300000,
 		Thorough: 20000000,
-		Require:  []string{"callback.readerIntruderTried", "callback.intruderTried", "ops.overlap", "porcupine.ok"},
+		Require:  []string{"callback.readerIntruderTried", "callback.intruderTried", "ops.overlap", "porcupine.ok", "range.callbackPanicked", "cache.store"},
 		Assume: []string{
 			"interleavings are explored at the granularity of the named yield points (between critical sections), not at instruction level",
 			"porcupine verdict Unknown (timeout) is counted as inconclusive, never reported",
@@ -425,14 +425,26 @@ func c14Run(e *Env, isCache bool) {
 			e.mu.Unlock()
 			defer func() { e.mu.Lock(); rangeActive--; e.mu.Unlock() }()
 			call := tick()
-			m.Range(func(k, v int) bool {
-				e.mu.Lock()
-				subClient++
-				sc := subClient
-				e.mu.Unlock()
-				add(&c14Rec{client: sc, in: c14In{Op: mVisit, K: k}, out: c14Out{V: v}, call: call, ret: tick()})
-				return true
-			})
+			// in.Del: the callback panics at its first item and the caller recovers (what every server does around
+			// application code); a sequential map lets the panic through and stays what it was
+			func() {
+				defer func() {
+					if x := recover(); x != nil {
+						e.Probe("range.callbackPanicked")
+					}
+				}()
+				m.Range(func(k, v int) bool {
+					e.mu.Lock()
+					subClient++
+					sc := subClient
+					e.mu.Unlock()
+					add(&c14Rec{client: sc, in: c14In{Op: mVisit, K: k}, out: c14Out{V: v}, call: call, ret: tick()})
+					if in.Del {
+						panic("c14: callback of Range panics")
+					}
+					return true
+				})
+			}()
 			return
 		case mStoreWithFunc:
 			r.call = tick()
